@@ -105,6 +105,7 @@ NA = {
     "C28": "LSP server liveness runs through serde_json, every handler, the parser and checker; the dispatcher alone cannot show handlers do not panic",
     "C30": "concurrency (reader, session workers, flusher, writer; mpsc, Mutex, thread::spawn): Kani does not model threads and a hand-written interleaving model would not be the real code",
     "C31": "same as C30: the property is about where an atomic store lands relative to another thread's dequeue",
+    "C32": "the prelude functions are Garden source: deciding them needs a second symbolic executor for Garden whose built-in models (substring, index_of, append, ...) would be unverified re-implementations of Rust code; not built — see DESIGN.md section 14",
     "C33": "print/parse round trip over all syntax trees needs the whole parser on symbolic token sequences; out of reach (C03 covers the one loop the property singles out)",
 }
 
